@@ -410,6 +410,9 @@ def recon_checks(ctx, trials=None, parts=ALL_PARTS):
             npts = 28
             coord = rs.uniform(-2, 2, (npts, 2))
             En, _ = linop_build.dense(sp.mri.linop.Sense(mps, coord=coord), check_i=False)
+            if En is None or np.shape(En) != (nc * npts, xt.size):
+                out.append((["C16", "C03"], "shape", "the non-Cartesian Sense operator cannot be applied / returns another shape than it advertises (dense probe: %s)" % (None if En is None else np.shape(En),)))
+                return out, n_eval
             yn = (En @ xt.ravel() + 0.05 * (rs.randn(nc * npts) + 1j * rs.randn(nc * npts))).reshape(nc, npts)
             dcf = rs.uniform(0.25, 1.5, npts)
             for wv in (None, dcf):
